@@ -38,6 +38,57 @@ def complete_write_rules(ctx):
 def run(ctx):
     complete_write_rules(ctx)
     errors(ctx)
+    # a hard error of the sink comes out of the failing call as Err - also out of into_inner, whose leftovers are dropped
+    # (shared with C15)
+    from .c15 import mustcall
+    mustcall(ctx)
+    failed_flush_rule(ctx)
+
+
+def failed_flush_rule(ctx):
+    """A block flush that failed may have delivered part of the block.  The block stays pending and every public call
+    starts by flushing the pending block: sending it again from its first byte would duplicate what the sink already
+    took, and return Ok over a corrupt file.  The outcome of the block write is recorded in the writer (a flag set from
+    the result / on its error edge) and the write is only attempted while that flag is clear (set => Err)."""
+    f = ctx.f
+    P_ = 'object_container_file_encoding::writer::'
+    b = None
+    for x in f.body_list:
+        if fn_label(x) == P_ + 'Writer::flush_finished_block':
+            b = x
+    if b is None:
+        ctx.ob('RETRY', 'failed-flush-is-not-resent', False, None, 'Writer::flush_finished_block not found')
+        return
+    ctx.touched(b)
+    wc = [(bb, t) for bb, t in b.calls() if 'write_all_vectored' in cname(t) and not b.is_cleanup(bb)]
+    ok, det = False, '%d block write(s) found' % len(wc)
+    if len(wc) == 1:
+        wbb, wt = wc[0]
+        # flag written from the outcome: `self.F = res.is_err()` / `= true` on the error edge
+        flags = set()
+        for bb in sorted(b.live_blocks()):
+            if b.is_cleanup(bb):
+                continue
+            for s_ in b.stmts(bb):
+                if 'assign' in s_ and s_['assign'].get('p') and s_['rv']['k'] == 'use':
+                    fl = [e.get('f') for e in s_['assign']['p'] if isinstance(e, dict) and 'f' in e]
+                    o = origin(b, s_['rv']['op'])
+                    from_result = any(strip_generics(cname(c)).endswith(('Result::is_err', 'Result::is_ok')) and any(c2 is wt for c2 in origin(b, c['args'][0]).calls) for c in o.calls)
+                    te = try_edges(b, wbb)
+                    on_err_edge = const_int(s_['rv']['op']) == 1 and te is not None and te[1] is not None and bb in b.reachable_from(te[1])
+                    if fl and (from_result or on_err_edge):
+                        flags.add(fl[-1])
+        guarded = False
+        for d, si, taken in dominating_switches(b, wbb):
+            if si.get('kind') == 'enum':
+                continue
+            so = origin(b, si['op'])
+            if so.fields & flags and taken == ('val', (0,)):
+                others = [s_ for s_ in b.succs(d) if not b.dominates(s_, wbb)]
+                guarded = all(all_paths_err(b, o_) for o_ in others)
+        ok = bool(flags) and guarded
+        det = 'outcome of the block write recorded in %s; the write is attempted only while it is clear (set => Err): %s' % (sorted(flags) or 'no field', guarded)
+    ctx.ob('RETRY', 'failed-flush-is-not-resent', ok, short_loc(b.span), det)
 
 
 def retry(ctx, b):
@@ -207,6 +258,7 @@ def sink(ctx, loop_fn=None):
 
 DISCARD_REVIEWED = {
     ('CompressionCodecState::new', 'unwrap_or'): (1, 'zstd level bound: i32 -> u8 conversion of a library constant, not an I/O result'),
+    ('Writer::flush_finished_block', 'is_err'): (1, 'the outcome of the block write is recorded (flush_failed) by reference; the Result itself is propagated with `?` on the next line'),
     ('<Writer as Drop>::drop', 'unwrap_or'): (1, 'catch_unwind(..).unwrap_or(Ok(())) while already panicking: the Err is a panic payload, Drop cannot report it'),
 }
 RESULT_DROP_REVIEWED = {
